@@ -107,6 +107,8 @@ def run(ck: Check):
     # in what the test sees of the second)
     from universe import session_universe
     session_universe(ck, oracle_c04, quick=quick)
+    from scale import big_frame_and_subdeletion
+    big_frame_and_subdeletion(ck, frame=False, sub=True)
     ex.diff()
     return ck.finish(level="proof", rule=RULE, assumptions=[
         "minimize-around / minimize-balanced: see DESIGN.md for which of their theorems are proved"])
